@@ -34,12 +34,42 @@ Proof.
     (split; [frame_tac|apply set_nth_length]).
 Qed.
 
+Definition gstate (r : (state * list lseq) + (state * obs)) : state :=
+  match r with inl (s, _) => s | inr (s, _) => s end.
+
+Lemma gather_frame : forall args st, List.length (gstate (gather st args)) = List.length st /\
+  forall j, ~ In j (flat_map marg_obj args) -> nth_error (gstate (gather st args)) j = nth_error st j.
+Proof.
+  induction args as [|a args IH]; intros st; cbn [gather]; [cbn; auto|].
+  destruct a as [k|l].
+  - destruct (give st k) as [[[st1 s]|]|e] eqn:Eg; try (cbn; auto).
+    destruct (IH st1) as [L F]. destruct (give_frame _ _ _ _ (S k) Eg (n_Sn k)) as [_ L1].
+    assert (G : gstate (match gather st1 args with inl (st', ss) => inl (st', s :: ss) | inr e => inr e end)
+                = gstate (gather st1 args)) by (destruct (gather st1 args) as [[? ?]|[? ?]]; reflexivity).
+    rewrite G. split; [congruence|]. intros j Hj. cbn [flat_map marg_obj app] in Hj.
+    rewrite F by (intros Hin; apply Hj; right; exact Hin).
+    assert (Hk : k <> j) by (intros ->; apply Hj; left; reflexivity).
+    apply (give_frame _ _ _ _ j Eg Hk).
+  - destruct (IH st) as [L F].
+    assert (G : gstate (match gather st args with inl (st', ss) => inl (st', fin l :: ss) | inr e => inr e end)
+                = gstate (gather st args)) by (destruct (gather st args) as [[? ?]|[? ?]]; reflexivity).
+    rewrite G. split; [exact L|]. intros j Hj. apply F. exact Hj.
+Qed.
+
+Lemma gather_fresh : forall args, flat_map marg_obj args = [] ->
+  exists ss, forall st, gather st args = inl (st, ss).
+Proof.
+  induction args as [|a args IH]; intros H; [exists []; reflexivity|].
+  destruct a as [k|l]; [discriminate|]. cbn [flat_map marg_obj app] in H.
+  destruct (IH H) as [ss Hs]. exists (fin l :: ss). intros st. cbn [gather]. rewrite Hs. reflexivity.
+Qed.
+
 (* an operation on one object leaves every other existing object as it was *)
-Theorem step_frame : forall st o j, (j < List.length st)%nat -> target o <> Some j -> arg o <> Some j ->
+Theorem step_frame : forall st o j, (j < List.length st)%nat -> target o <> Some j -> ~ In j (uses o) ->
   nth_error (fst (step st o)) j = nth_error st j.
 Proof.
   intros st o j Hj Ht Harg.
-  destruct o as [i|i c|i c|i c|i c|i|i p|i f|i p|i n|i|i n|z n|z n|i k|m|e]; cbn [target arg] in Ht, Harg;
+  destruct o as [i|i c|i c|i c|i c|i|i p|i f|i p|i n|i|i n|z n|z n|i k|m|e|tgt args]; cbn [target uses] in Ht, Harg;
     try (assert (Hne : i <> j) by congruence); cbn [step].
   - destruct (nth_error st i) as [[s|s u|]|]; try reflexivity. unfold do_take.
     destruct (nth_error st i) as [[s1|s1 u1|]|]; try reflexivity.
@@ -65,11 +95,22 @@ Proof.
   - destruct (Nat.eqb i k); [reflexivity|].
     destruct (nth_error st i) as [[s|s u|]|]; try reflexivity.
     destruct (give st k) as [[[st' s']|]|e] eqn:Eg; try reflexivity.
-    assert (Hk : k <> j) by congruence.
+    assert (Hk : k <> j) by (intros ->; apply Harg; left; reflexivity).
     destruct (give_frame _ _ _ _ j Eg Hk) as [A B].
     rewrite apply_t_frame; [exact A|lia|exact Hne].
   - reflexivity.
   - reflexivity.
+  - destruct args as [|a [|b args]]; try reflexivity.
+    destruct (gather_frame (a :: b :: args) st) as [L F]. specialize (F j Harg).
+    destruct tgt as [i|].
+    + assert (Hne : i <> j) by congruence.
+      destruct (nth_error st i) as [[s|s u|]|]; try reflexivity.
+      destruct (gather st (a :: b :: args)) as [[st' ss]|[st' ob]]; cbn [gstate] in L, F; cbn [fst].
+      * rewrite apply_t_frame; [exact F|lia|exact Hne].
+      * exact F.
+    + destruct (gather st (a :: b :: args)) as [[st' ss]|[st' ob]]; cbn [gstate] in L, F; cbn [fst].
+      * rewrite nth_error_app_old by lia. exact F.
+      * exact F.
 Qed.
 
 Lemma apply_t_length : forall st i t, (List.length st <= List.length (fst (apply_t st i t)))%nat.
@@ -88,7 +129,7 @@ Qed.
 Lemma step_length : forall st o, (List.length st <= List.length (fst (step st o)))%nat.
 Proof.
   intros st o.
-  destruct o as [i|i c|i c|i c|i c|i|i p|i f|i p|i n|i|i n|z n|z n|i k|m|e]; cbn [step];
+  destruct o as [i|i c|i c|i c|i c|i|i p|i f|i p|i n|i|i n|z n|z n|i k|m|e|tgt args]; cbn [step];
     try apply apply_t_length; try (cbn; lia).
   - destruct (nth_error st i) as [[s|s u|]|]; try (cbn; lia). unfold do_take.
     destruct (nth_error st i) as [[s1|s1 u1|]|]; try (cbn; lia).
@@ -108,13 +149,21 @@ Proof.
     destruct (nth_error st i) as [[s|s u|]|]; try (cbn; lia).
     destruct (give st k) as [[[st' s']|]|e] eqn:Eg; try (cbn; lia).
     rewrite <- (give_length _ _ _ _ Eg). apply apply_t_length.
+  - destruct args as [|a [|b args]]; try (cbn; lia).
+    destruct (gather_frame (a :: b :: args) st) as [L _].
+    destruct tgt as [i|].
+    + destruct (nth_error st i) as [[s|s u|]|]; try (cbn; lia).
+      destruct (gather st (a :: b :: args)) as [[st' ss]|[st' ob]]; cbn [gstate] in L; cbn [fst]; [|lia].
+      rewrite <- L. apply apply_t_length.
+    + destruct (gather st (a :: b :: args)) as [[st' ss]|[st' ob]]; cbn [gstate] in L; cbn [fst];
+        rewrite ?app_length; lia.
 Qed.
 
 (* Whatever is done, in any order and number, to the OTHER objects (the stream
    it was copied from, sibling copies, tee outputs, hub uses ...), an object
    keeps exactly its remaining sequence (and a hub its number of uses). *)
 Theorem copies_independent : forall ops st j e,
-  nth_error st j = Some e -> Forall (fun o => target o <> Some j /\ arg o <> Some j) ops ->
+  nth_error st j = Some e -> Forall (fun o => target o <> Some j /\ ~ In j (uses o)) ops ->
   nth_error (final st ops) j = Some e.
 Proof.
   induction ops as [|o ops IH]; intros st j e Hj Hf; [exact Hj|].
@@ -129,13 +178,13 @@ Proof. intros st i s H. cbn [step]. rewrite H. reflexivity. Qed.
 
 (* the observation of an operation depends only on the object it is applied to
    (and on how many objects exist, for the id of a new one) *)
-Theorem step_local : forall st1 st2 o i, target o = Some i -> arg o = None ->
+Theorem step_local : forall st1 st2 o i, target o = Some i -> uses o = [] ->
   nth_error st1 i = nth_error st2 i -> List.length st1 = List.length st2 ->
   snd (step st1 o) = snd (step st2 o).
 Proof.
   intros st1 st2 o i Ht Harg Hn Hl.
-  destruct o as [k|k c|k c|k c|k c|k|k p|k f|k p|k n|k|k n|z n|z n|k k2|m|e]; cbn [target arg] in Ht, Harg;
-    try discriminate Harg; inversion Ht; subst k; cbn [step]; unfold do_take, apply_t, give; rewrite <- ?Hn, ?Hl.
+  destruct o as [k|k c|k c|k c|k c|k|k p|k f|k p|k n|k|k n|z n|z n|k k2|m|e|tgt args]; cbn [target uses] in Ht, Harg;
+    try discriminate Harg; inversion Ht; subst; cbn [step]; unfold do_take, apply_t, give; rewrite <- ?Hn, ?Hl.
   - destruct (nth_error st1 i) as [[s|s u|]|]; try reflexivity. destruct (take_seq CNone s); reflexivity.
   - destruct (nth_error st1 i) as [[s|s u|]|]; try reflexivity. destruct (take_seq c s); reflexivity.
   - destruct (nth_error st1 i) as [[s|s [|u]|]|]; reflexivity.
@@ -148,6 +197,9 @@ Proof.
   - destruct (nth_error st1 i) as [[s|s [|u]|]|]; reflexivity.
   - destruct (nth_error st1 i) as [[s|s [|u]|]|]; reflexivity.
   - destruct n as [|n]; rewrite <- ?Hn, ?Hl; destruct (nth_error st1 i) as [[s|s [|u]|]|]; reflexivity.
+  - destruct args as [|a [|b args]]; try reflexivity.
+    destruct (gather_fresh _ Harg) as [ss Hs]. rewrite !Hs.
+    destruct (nth_error st1 i) as [[s|s [|u]|]|]; rewrite <- ?Hn; reflexivity.
 Qed.
 
 (* peek: nothing is removed, from no object *)
@@ -316,3 +368,15 @@ Proof. reflexivity. Qed.
 (* a refused call (TypeError / ValueError ...) leaves every object exactly as it was *)
 Theorem refused_call_changes_nothing : forall st e, step st (ORefused e) = (st, ORaise e).
 Proof. reflexivity. Qed.
+
+(* Stream(hub, list): the hub is charged exactly one use at construction; without a use left
+   the call raises IndexError and nothing changes *)
+Theorem multi_hub_charged_at_construction : forall st j s u l, nth_error st j = Some (EHub s u) ->
+  step st (OMulti None [MObj j; MFresh l]) =
+  match u with
+  | S u' => (set_nth j (EHub s u') st ++ [EStream (lappend s (fin l))], ONew (List.length st))
+  | O => (st, ORaise "IndexError")
+  end.
+Proof.
+  intros st j s u l H. cbn [step gather]. unfold give. rewrite H. destruct u as [|u']; reflexivity.
+Qed.
